@@ -14,7 +14,7 @@ use std::time::{Duration, Instant};
 
 pub fn meta() -> Meta {
     Meta {
-        rule: "histories of 6..14 steps over add-authoritative, receive-from-network(ttl in {0,1,2,1000}, cache-flush; either add_cached_resource directly or a response packet through the real sync / tokio ingest functions, with and without on_discovery channel), re-add, remove, clear and real sleeps of {0, 0.4, 1.1, 2.1} s \
+        rule: "histories of 6..14 steps over add-authoritative, receive-from-network(ttl in {0,1,2,1000,2^31-1,2^31,2^32-1}, cache-flush; either add_cached_resource directly or a response packet through the real sync / tokio ingest functions, with and without on_discovery channel), re-add, remove, clear and real sleeps of {0, 0.4, 1.1, 2.1} s \
 on 8 record identities under collision-free names (x, a.x, b.x, c.a.x); after every step the store is queried with the authoritative (with/without subdomains), cached \
 and combined filters. Every library call is bracketed by two Instant readings; the model keeps per identity Authoritative | Cached{added in [a0,a1], effective ttl}. \
 Cached record: must be returned if the query ended before a0+ttl, must not be returned if it began at or after a1+ttl (in between either); authoritative: always by \
@@ -100,7 +100,7 @@ fn history(seed: u64, idx: u64, virtual_clock: bool) -> Local {
             }
             4..=10 => {
                 let i = r.usize(0, ids.len() - 1);
-                let ttl = *r.pick(&[0u32, 1, 1, 2, 2, 1000]);
+                let ttl = *r.pick(&[0u32, 1, 1, 2, 2, 1000, 1000, 0x7FFF_FFFF, 0x8000_0000, u32::MAX]);
                 let flush = r.chance(1, 4);
                 let mut rec = ids[i].clone();
                 rec.ttl = ttl;
